@@ -6,13 +6,11 @@ toolchain go1.25.11
 
 require (
 	github.com/tink-crypto/tink-go/v2 v2.0.0
+	golang.org/x/crypto v0.53.0
 	google.golang.org/protobuf v1.36.11
 	pgregory.net/rapid v1.3.0
 )
 
-require (
-	golang.org/x/crypto v0.53.0 // indirect
-	golang.org/x/sys v0.46.0 // indirect
-)
+require golang.org/x/sys v0.46.0 // indirect
 
 replace github.com/tink-crypto/tink-go/v2 => /repo
